@@ -38,6 +38,10 @@ func TestForcedPool(t *testing.T) {
 				if m.Kind != rc.Promotion {
 					t.Fatalf("%s: %s", c.Fen, m)
 				}
+			case "pinned-piece-moves-only":
+				if m.From != l[0].From || p.InCheck(p.White) {
+					t.Fatalf("%s: %s", c.Fen, m)
+				}
 			default:
 				if len(l) > 2 {
 					t.Fatalf("%s: %d moves", c.Fen, len(l))
@@ -59,7 +63,7 @@ func TestForcedPool(t *testing.T) {
 		}
 	}
 	t.Logf("motifs %v, with predecessor %v", count, preds)
-	for _, m := range []string{"ep-evasion", "double-push-interposition", "promotion-only", "few-replies-in-check", "few-moves-quiet"} {
+	for _, m := range []string{"ep-evasion", "double-push-interposition", "promotion-only", "few-replies-in-check", "few-moves-quiet", "pinned-piece-moves-only"} {
 		if count[m] < 20 {
 			t.Fatalf("motif %s has only %d entries", m, count[m])
 		}
